@@ -10,6 +10,7 @@ import itertools
 
 import numpy as np
 import z3
+from harness import pipeline as PP
 
 from symx import loader
 from symx.core import Sym, SymBool, Ctx, symarray, qval, model_value, is_nan
@@ -28,7 +29,7 @@ ASSUMPTIONS = ["real arithmetic for curve values and frequencies (comparisons on
 OUTSIDE = ["find_peaks_kwargs other than none/height", "curves longer than the bound"]
 BOUNDS = {"quick": {"points_per_curve": "4-5", "curves": "<=2", "azimuths": "<=2", "range_updates": "<=2"},
           "thorough": {"points_per_curve": "4-7", "curves": "<=3", "azimuths": "<=2", "range_updates": "<=3"}}
-INSTANCE_TIMEOUT = {"quick": 200, "thorough": 1500}
+INSTANCE_TIMEOUT = {"quick": 200, "thorough": 700}
 _L = None
 
 
@@ -62,6 +63,9 @@ def instances(tier):
         for lo, hi in kinds:
             out.append({"name": f"trad_w{w}_n{n}_lo{int(lo)}_hi{int(hi)}", "func": "run_traditional",
                         "kwargs": {"w": w, "n": n, "use_lo": lo, "use_hi": hi}})
+    # azimuthal: range A on the object, range B on a member (as the rejection algorithms do), range A on the object again
+    for ka, kb in (((True, True), (False, True)), ((False, False), (True, False)), ((True, False), (False, False))):
+        out.append({"name": f"azimuthal_updates_{int(ka[0])}{int(ka[1])}_{int(kb[0])}{int(kb[1])}", "func": "run_azimuthal_updates", "kwargs": {"ka": ka, "kb": kb}})
     for lo, hi in kinds:
         out.append({"name": f"azimuthal_lo{int(lo)}_hi{int(hi)}", "func": "run_azimuthal", "kwargs": {"use_lo": lo, "use_hi": hi}})
         for n in ([4, 5] if tier == "quick" else [4, 5, 6]):
@@ -304,6 +308,29 @@ def run_azimuthal(rep, tier, use_lo, use_hi):
         add_validation(rep, ctx, "HvsrAzimuthal", frq, amps, [(lo, hi)], got)
 
 
+def run_azimuthal_updates(rep, tier, ka, kb):
+    HT = L()["hvsr_traditional"].HvsrTraditional
+    HA = L()["hvsr_azimuthal"].HvsrAzimuthal
+    n = 4
+
+    def run(ctx):
+        frq = mk_grid(ctx, n, "concrete")
+        a0 = symarray("a", (1, n), ctx, nonneg=True)
+        a1 = symarray("b", (1, n), ctx, nonneg=True)
+        ra = mk_range(ctx, *ka, tag="A")
+        rb = mk_range(ctx, *kb, tag="B")
+        az = HA([HT(frq, a0), HT(frq, a1)], [0.0, 90.0])
+        az.update_peaks_bounded(search_range_in_hz=ra)
+        for h in az.hvsrs:                       # what frequency_domain_window_rejection / manual rejection do
+            h.update_peaks_bounded(search_range_in_hz=rb)
+        az.update_peaks_bounded(search_range_in_hz=ra)
+        return frq, [a0[0], a1[0]], ra, rb, az
+
+    for ctx, (frq, amps, ra, rb, az) in rep.explore(run, max_paths=1500 if tier == "quick" else 20000):
+        for k, h in enumerate(az.hvsrs):
+            _check_traditional(rep, ctx, h, frq, [amps[k]], ra[0], ra[1], "HvsrAzimuthal", [ra, rb, ra], label=f"after updates A, B (member), A: azimuth {k} ")
+
+
 def run_diffuse(rep, tier, n, use_lo, use_hi):
     HD = L()["hvsr_diffuse_field"].HvsrDiffuseField
 
@@ -337,7 +364,7 @@ def run_mean_peak(rep, tier, dist, use_lo, use_hi):
         frq = mk_grid(ctx, n, "concrete")
         amps = symarray("a", (w, n), ctx, pos="exp" if dist == "lognormal" else True)
         lo, hi = mk_range(ctx, use_lo, use_hi)
-        h = HT.__new__(HT)
+        h = PP.shell_traditional(HT)
         h.frequency, h.amplitude, h.n_curves, h.meta = frq, amps, w, {}
         h.valid_window_boolean_mask = np.ones(w, dtype=bool)
         h.valid_peak_boolean_mask = np.ones(w, dtype=bool)
@@ -422,8 +449,12 @@ def _build(spec):
             rows.append((a, h._main_peak_frq[i], h._main_peak_amp[i], bool(h.valid_peak_boolean_mask[i])))
     elif cls == "HvsrAzimuthal":
         az = hvsrpy.HvsrAzimuthal([hvsrpy.HvsrTraditional(frq, a) for a in amps], [0.0, 90.0][:len(amps)])
-        for r in ranges:
-            az.update_peaks_bounded(search_range_in_hz=r)
+        for k, r in enumerate(ranges):
+            if len(ranges) == 3 and k == 1:
+                for h in az.hvsrs:
+                    h.update_peaks_bounded(search_range_in_hz=r)
+            else:
+                az.update_peaks_bounded(search_range_in_hz=r)
         for h, a in zip(az.hvsrs, amps):
             rows.append((a, h._main_peak_frq[0], h._main_peak_amp[0], bool(h.valid_peak_boolean_mask[0])))
     elif cls.startswith("HvsrTraditional.mean_curve_peak:"):
